@@ -806,6 +806,25 @@ fn part_calls(out: &mut JobOut) {
             }
         }
     }
+    // dynamic-rank data with many trailing axes (targets of 11 .. 20 axes, results of up to 23)
+    for trailing in [11usize, 12, 13, 16, 17, 20] {
+        let mut ds = vec![3usize];
+        for k in 0..trailing {
+            ds.push(if k == 0 || k + 1 == trailing { 2 } else { 1 });
+        }
+        for qs in q {
+            for f in [c1_d_1, c1_d_d] {
+                let _ = f(&ds, qs, out);
+            }
+        }
+        let mut ds2 = vec![3usize, 2];
+        ds2.extend_from_slice(&ds[1..]);
+        for qs in q {
+            for f in [c2_d_1, c2_d_d] {
+                let _ = f(&ds2, qs, out);
+            }
+        }
+    }
     // interp_scalar on 1-D / 2-D data
     let log: Log = Arc::new(Mutex::new(vec![]));
     let ip = Interp1DBuilder::new(Array1::from(vec![1.0, 2.0, 3.0])).strategy(RecBuilder::<2> { log: log.clone(), fail_build: false, fail_at: Some(1) }).build().unwrap();
@@ -959,7 +978,7 @@ fn body(ctx: &Ctx) -> (Summary, Meta) {
     });
     let _ = (Ix0::default(), ctx.quick());
     let meta = Meta {
-        rule: "recording strategy builders with declared minimum 0..4 for Interp1D and Interp2D: (1) on the decision-table inputs (data ranks static/dynamic incl. rank 0, lengths 0..min+2, axis default / n-1 / n / n+1 with tie, swap, NaN at every position; 2-D x-factors x y-factors) the strategy's build may only be entered when axes are strictly increasing, have the data's length and the length reaches the declared minimum, and its error must reach the caller unchanged; (2) for 18 static/dynamic instantiations x data shapes x query shapes (ranks 0..3, empty) x {interp, interp_into, interp_array, interp_array_into, interp_scalar} the strategy must see exactly the query values (bit patterns incl. NaN, -0, inf, 1e300) in logical order with a target of shape data.shape[k..]; a failure is injected at every call index of every batch and must stop the batch and reach the caller verbatim; (3) index_point(i) for every i and is_in_range on the range-end alphabet; (4) the default index axis of 2^24+2 f32 values (not strictly increasing after the cast) must not reach the strategy builder; (5) u8 / u32 / u64 / i32 / i64 axes with every order pattern (tie / swap at every position, decreasing, MIN..MAX, MAX..MIN) as x of Interp1D and as x or y of Interp2D: the builder only sees strictly increasing axes, build() returns Ok iff the axis is, and never panics. Query batches contain consecutive equal values (incl. NaN, NaN and 0.0, -0.0). Non-trivial = a case in which the strategy is entered or an accessor is compared.".into(),
+        rule: "recording strategy builders with declared minimum 0..4 for Interp1D and Interp2D: (1) on the decision-table inputs (data ranks static/dynamic incl. rank 0, lengths 0..min+2, axis default / n-1 / n / n+1 with tie, swap, NaN at every position; 2-D x-factors x y-factors) the strategy's build may only be entered when axes are strictly increasing, have the data's length and the length reaches the declared minimum, and its error must reach the caller unchanged; (2) for 18 static/dynamic instantiations x data shapes x query shapes (ranks 0..3, empty; dynamic data with 11 .. 20 trailing axes) x {interp, interp_into, interp_array, interp_array_into, interp_scalar} the strategy must see exactly the query values (bit patterns incl. NaN, -0, inf, 1e300) in logical order with a target of shape data.shape[k..]; a failure is injected at every call index of every batch and must stop the batch and reach the caller verbatim; (3) index_point(i) for every i and is_in_range on the range-end alphabet; (4) the default index axis of 2^24+2 f32 values (not strictly increasing after the cast) must not reach the strategy builder; (5) u8 / u32 / u64 / i32 / i64 axes with every order pattern (tie / swap at every position, decreasing, MIN..MAX, MAX..MIN) as x of Interp1D and as x or y of Interp2D: the builder only sees strictly increasing axes, build() returns Ok iff the axis is, and never panics. Query batches contain consecutive equal values (incl. NaN, NaN and 0.0, -0.0). Non-trivial = a case in which the strategy is entered or an accessor is compared.".into(),
         bounds: format!("9 parts (5 declared minima + calls + accessors + long f32 default axis + integer types); tier {}", ctx.tier.name()),
         assumptions: vec!["queries are handed to the strategy in the logical order of the query array".into()],
         extra: vec![],
